@@ -1016,6 +1016,15 @@ func (r *FnRun) jump(st *State, fr *frame, from, to *ssa.BasicBlock) {
 			r.noInvLoops = append(r.noInvLoops, fmt.Sprintf("%s loop %d", fr.fn.Name(), ord))
 		}
 		ms := r.modsetBlocks(fr.fn, li.blocks[to])
+		if fr.fc != nil {
+			for _, g := range fr.fc.Ghosts {
+				if g.N == ord && (g.Anchor == "loop-backedge") {
+					for _, fam := range g.Havoc {
+						ms.fams[fam] = true
+					}
+				}
+			}
+		}
 		r.applyHavoc(st, ms)
 		r.rangeIndexBound(st, to)
 		for _, c := range invs {
